@@ -25,7 +25,16 @@ def small_inline(caller, callee, depth):
     return cfg.is_loop_free()
 
 
-INLINE = {'none': None, 'small': small_inline}
+CTOR_LIKE = {'member::Member::new', 'member::Member::down', 'member::Member::alive', 'member::Member::id',
+             'member::Member::incarnation', 'member::Member::state', 'member::Member::into_identity'}
+
+
+def ctor_inline(caller, callee, depth):
+    """Only Member's constructors and single-projection accessors (so that applied values are visible)."""
+    return callee.nname in CTOR_LIKE
+
+
+INLINE = {'none': None, 'small': small_inline, 'ctor': ctor_inline}
 
 
 class Ctx:
